@@ -99,7 +99,8 @@ theorem drainA_peer (g : GS) (ha : AInv g) (ps2 : PeerSt) (h2 : (midA g.s).peers
       (Client.updatePeer (midA g.s).wantlist g.s.a.now ps2 none).1 := by
     unfold ClientView.nextPeer
     rw [h2]; rfl
-  rw [e2, A.drainedC_peers, hd]
+  rw [e2, A.drainedC_peers _ _ _ _ _ (fun _ => A.drain_tracked g.s.a.now g.s.a.seq (Node.prefOf [])
+    (A.ainv_peer ha) (A.ainv_conns ha) (A.ainv_nosend ha)), hd]
   show (if (outsA g.s).any isSend = true ∧ 1 = 1 then
       (ClientView.nextPeer (midA g.s) g.s.a.now (Node.prefOf []) 1).map _ else
       ClientView.nextPeer (midA g.s) g.s.a.now (Node.prefOf []) 1) = _
